@@ -374,7 +374,12 @@ def instantiate_all(parser, added, target, is_class, mod, offer_by_name):
 
 def observe_component(mod, target, is_class, univ, vals, offer_by_name=None, with_table=True):
     obs = {"table": interp_table(mod, target, univ) if with_table else None}
-    params, ast_same = observe_resolver(target)
+    try:
+        params, ast_same = observe_resolver(target)
+    except Exception as ex:  # get_signature_parameters is documented to return a list, whatever the source looks like
+        obs["resolver_error"] = f"{type(ex).__name__}: {ex}"[:300]
+        obs["resolved"] = None
+        return obs
     obs["resolved"] = alpha_resolved(params, vals)
     obs["ast_same"] = ast_same
     if offer_by_name is None:  # TRACE mode: the values to parse are chosen from what the resolver itself offered
@@ -411,7 +416,7 @@ def _replay_chunk(job):
                 if case["callable"] and obs["summary"]["callable"]:
                     offer_by_name = {d["n"]: d for d in case["offer"]}
                     o2 = observe_component(mod, target, comp["k"] == "cls", univ, vals, offer_by_name, with_table=False)
-                    obs.update({k: o2[k] for k in ("resolved", "ast_same", "parser", "inst") if k in o2})
+                    obs.update({k: o2[k] for k in ("resolved", "ast_same", "parser", "inst", "resolver_error") if k in o2})
                 obs["source"] = source
                 out.append(obs)
             except Exception as ex:
@@ -478,6 +483,8 @@ def classify(rep, prog, comp, exp, obs, source, how):
         rep.violation(key, what, {**base_case, **extra})
 
     res = obs.get("resolved")
+    if obs.get("resolver_error"):
+        viol("resolver-raises", f"get_signature_parameters raised {obs['resolver_error']} [{shape}]", {})
     if res is not None:
         names = [p["n"] for p in res]
         if sorted(names) != ref_names:
@@ -671,7 +678,7 @@ def _trace_chunk(job):
                     rec = {"seed": sd, "prog": prog, "comp": comp, "univ": univ, "table": rows, "source": source}
                     if any(r["ok"] for r in rows):
                         o2 = observe_component(mod, target, comp["k"] == "cls", univ, vals, None, with_table=False)
-                        rec.update({k: o2[k] for k in ("resolved", "ast_same", "parser", "inst") if k in o2})
+                        rec.update({k: o2[k] for k in ("resolved", "ast_same", "parser", "inst", "resolver_error") if k in o2})
                     out.append(rec)
             except Exception as ex:
                 out.append({"seed": sd, "harness_error": f"{type(ex).__name__}: {ex}"[:400], "source": source})
@@ -780,7 +787,7 @@ def main(argv):
     rep.extra["deviation_programs_replayed"] = devs_seen
 
     # ---- TRACE
-    nprog = 500 if tier == "quick" else 8000
+    nprog = 400 if tier == "quick" else 8000
     seeds = [f"{seed}/{i}" for i in range(nprog)]
     recs = run_pool(_trace_chunk, chunks(seeds, "t", max(10, nprog // (NPROC * 4))))
     herr = [r for r in recs if "harness_error" in r]
@@ -831,6 +838,8 @@ def main(argv):
                 "deviation": dev, "failed_clauses": clauses}
         ref_fail = [c for c in clauses if c.startswith("ref-")]
         as_alg = "alg" not in clauses
+        if rec.get("resolver_error"):
+            rep.violation(f"resolver-raises:{shape}", f"random program: get_signature_parameters raised {rec['resolver_error']} [{shape}]", case)
         for c in ref_fail:
             key = f"{dev}/{'as-alg' if as_alg else 'other'}:{c[4:]}" if dev != "-" else f"{c[4:]}:{shape}"
             rep.violation(key, f"random program: clause {c} of Trace_Resolver fails [{shape}]", case)
